@@ -74,3 +74,10 @@ Definition pr_req (r : req) : preq :=
 Definition trace_case (page : nat) (raw_prefix : string) (F : list (string * string)) (ops : list (op key)) :=
   let Fb := map (fun kv => (lit (fst kv), lit (snd kv))) F in
   map (map pr_req) (run_trace page (gen_init_prefix (lit raw_prefix)) Fb (map (map_op join) ops)).
+
+(* paginated listing under faults *)
+Require Import DS.Model.Paged.
+Inductive ppl := PLReturned (l : list string) | PLRaised (f : fault) | PLEnded.
+Definition paged_case (pages : list (list string)) (pl : list (option fault)) :=
+  let '(r, n) := paged_list gen_max_retries pages pl in
+  (match r with Returned l => PLReturned l | Raised f => PLRaised f | ScriptEnded => PLEnded end, Z.of_nat n).
